@@ -414,6 +414,7 @@ static void child_run(const Plan& p) {
   run_reset_child();
   reuse_reset(p.reuse != 0);
   g_fill_byte = p.fill & 0xff;
+  g_sim_entropy = splitmix64(plan_hash(p) ^ 0x51ed270b1ull);
   if (!apply_locale(p.locale)) { fprintf(stderr, "xrlsim: locale configuration %d unavailable\n", p.locale); _exit(3); }
   logf("PLAN engine=%s batch=%s seed=%llu runseed=%llu locale=%s", p.engine.c_str(), p.batch.c_str(), (unsigned long long)p.seed,
        (unsigned long long)p.runseed, locale_name(p.locale));
